@@ -152,6 +152,12 @@ func (p *pkg) namedType(ts *ast.TypeSpec) *typ {
 			}
 			return tStruct(sdSig, false)
 		}
+		if ts.Name.Name == "constantsData" && p.name == "mimc7" {
+			if sig != "seedHash:*big.Int,iv:*big.Int,nRounds:int,cts:[]*ff.Element" {
+				fatalf("%s: struct constantsData changed: %s", p.pos(ts), sig)
+			}
+			return tStruct(sdMimcConsts, false)
+		}
 		return nil // other structs: unknown type, an error only if used
 	case *ast.ArrayType:
 		if id, ok := t.Elt.(*ast.Ident); ok && id.Name == "byte" {
